@@ -23,7 +23,9 @@ def parseEvent? (tok : String) : Option Ev :=
   | ["f", f, n, tag] => do let f ← f.toNat?; let n ← n.toNat?; pure (.enqueue (floodItems f n tag))
   | ["r", rid, cid, exp] => do let rid ← rid.toNat?; let exp ← parseIds? exp; pure (.recv rid cid exp false)
   | ["r", rid, cid, exp, "p"] => do let rid ← rid.toNat?; let exp ← parseIds? exp; pure (.recv rid cid exp true)
+  | ["r", rid, cid, exp, "g"] => do let rid ← rid.toNat?; let exp ← parseIds? exp; pure (.recvHeld rid cid exp)
   | ["c", rid] => do let rid ← rid.toNat?; pure (.cancel rid)
+  | ["u", rid] => do let rid ← rid.toNat?; pure (.release rid)
   | ["x"] => some .close
   | _ => none
 
@@ -76,13 +78,28 @@ def parseMap? (s : String) : Option (List (Nat × String)) :=
 
 /-! ### model run -/
 
-def modelResults (cfg : Config) (evs : List Ev) : Option (List (Nat × Option Nat × String)) :=
+/-- the scheduler only ever applied `step`: its state is `run cfg steps init` (and its mailbox keys
+are `runBoxes`); `none` if that re-check fails -/
+def modelRun (cfg : Config) (evs : List Ev) : Option (L2 String String) :=
   let l := runEvents cfg evs
-  -- the scheduler only ever applied `step`: its state is `run cfg steps init`
-  let s := run cfg l.steps.reverse (init : State String String)
-  if s.log ≠ l.core.log ∨ s.entries ≠ l.core.entries ∨ s.buffered ≠ l.core.buffered then none else
-  some (l.results.map (fun (rid, k, r) => (rid, some k, renderRes r)) ++
-        l.active.map (fun a => (a.1, none, "blocked")))
+  let sb := runBoxes cfg l.steps.reverse ((init : State String String), [])
+  let s := sb.1
+  if s.log ≠ l.core.log ∨ s.entries ≠ l.core.entries ∨ s.buffered ≠ l.core.buffered ∨ sb.2 ≠ l.boxes then none
+  else some l
+
+def resultsOf (l : L2 String String) : List (Nat × Option Nat × String) :=
+  l.results.map (fun (rid, k, r) => (rid, some k, renderRes r)) ++
+    l.active.map (fun a => (a.1, none, "blocked"))
+
+/-- observation suffix of a trace result: `<results>|b=<buffered after every event>|x=<mailbox objects …>` -/
+def splitObs (rhs : String) : String × Option String × Option String :=
+  match rhs.splitOn "|" with
+  | [r, b, x] =>
+    if b.startsWith "b=" ∧ x.startsWith "x=" then (r, some (b.drop 2).toString, some (x.drop 2).toString)
+    else (rhs, none, none)
+  | _ => (rhs, none, none)
+
+def renderNats (xs : List Nat) : String := joinComma (xs.map toString)
 
 /-! ### property oracles on the implementation's answer (independent of the model run) -/
 
@@ -97,6 +114,7 @@ def deliveries (evs : List Ev) : List (Nat × String × String) :=
 def recvOf (evs : List Ev) (rid : Nat) : Option (String × List Nat) :=
   evs.findSome? fun
     | .recv r cid exp _ => if r = rid then some (cid, exp) else none
+    | .recvHeld r cid exp => if r = rid then some (cid, exp) else none
     | _ => none
 
 def sameSet (a b : List Nat) : Bool := a.all (b.contains ·) && b.all (a.contains ·)
@@ -134,11 +152,49 @@ def oracle (cfg : Config) (evs : List Ev) (rid : Nat) (res : String) (firstOnCid
         else some ("honest-blamed", "receive " ++ toString rid ++ " blames " ++ toString b ++ " who sent no conflicting payloads under " ++ cid)
     else none
 
+/-- property clauses that are decided relative to the model's run of the same linearisation:
+* `deadlock`: the receive is still blocked at quiescence although its outcome is decided;
+* `conflict-accepted`: a conflicting retransmission was swallowed;
+* `buffer-full-below-bound`: the receive failed with `ErrReceiveBufferFull` although the reader of
+  the model had not seen `bound` undelivered messages by then (`buffered_eq_sum`: the model's counter *is* the
+  number of undelivered messages), and the implementation has collected everything the model has;
+* `failed-while-deliverable`: an unclassified error or a panic where the receive completes. -/
+def modelViolation (l : L2 String String) (impl model : List (Nat × Option Nat × String)) (bound : Nat) :
+    Option (String × String) :=
+  -- the reader of the model had not latched `full` when the receive returned after event `k`
+  let notYetFull : Option Nat → Bool := fun k => match l.fullAt, k with
+    | none, _ => true
+    | some f, some k => decide (k < f)
+    | some _, none => false
+  -- every receive that completes in the model and whose result is known completed in the
+  -- implementation too (or is one of the failures in question)
+  let collectedAll := model.all fun (rid, _, mres) =>
+    !mres.startsWith "ok:" || (match impl.find? (·.1 = rid) with
+      | some (_, _, r) => r.startsWith "ok:" || r == "fatal:full"
+      | none => true)
+  let maxBuf := l.obs.foldl (fun m o => max m o.1) 0
+  impl.findSome? fun (rid, k, res) =>
+    match model.find? (·.1 = rid) with
+    | none => none
+    | some (_, _, mres) =>
+      if res == "blocked" ∧ mres != "blocked" then
+        some ("deadlock", "receive " ++ toString rid ++ " still blocked although the model returns " ++ mres)
+      else if mres.startsWith "poison:" ∧ res.startsWith "ok:" then
+        some ("conflict-accepted", "receive " ++ toString rid ++ " returned " ++ res ++ " although " ++ mres)
+      else if res == "fatal:full" ∧ mres != "fatal:full" ∧ notYetFull k = true ∧ collectedAll then
+        some ("buffer-full-below-bound", "receive " ++ toString rid ++ " failed with ErrReceiveBufferFull (model: " ++ mres ++
+          ") although the number of undelivered messages had not reached the bound by then (maximum over the trace " ++ toString maxBuf ++ ", bound " ++ toString bound ++ ")")
+      else if mres.startsWith "ok:" ∧ (res.startsWith "err:" ∨ res.startsWith "panic") then
+        some ("failed-while-deliverable", "receive " ++ toString rid ++ " returned " ++ res ++ " although all its messages were deposited: " ++ mres)
+      else none
+
 def checkTrace (cfg : Config) (evs : List Ev) (rhs : String) (ignoreWhen : Bool) : Verdict :=
-  match parseResults? rhs, modelResults cfg evs with
+  let (rres, bobs, xobs) := splitObs rhs
+  match parseResults? rres, modelRun cfg evs with
   | none, _ => .unsupported "rhs"
   | _, none => .unsupported "sched-internal"
-  | some impl, some model =>
+  | some impl, some l =>
+    let model := resultsOf l
     -- 1. oracles on every implementation result
     let rec go (rs : List (Nat × Option Nat × String)) (done : List String) : Option (String × String) :=
       match rs with
@@ -155,22 +211,145 @@ def checkTrace (cfg : Config) (evs : List Ev) (rhs : String) (ignoreWhen : Bool)
     | some (k, why) => .bad k why
     | none =>
       -- 2. model-relative property clauses
-      let viol := impl.findSome? fun (rid, _, res) =>
-        match model.find? (·.1 = rid) with
-        | none => none
-        | some (_, _, mres) =>
-          if res == "blocked" ∧ mres != "blocked" then
-            some ("deadlock", "receive " ++ toString rid ++ " still blocked although the model returns " ++ mres)
-          else if mres.startsWith "poison:" ∧ res.startsWith "ok:" then
-            some ("conflict-accepted", "receive " ++ toString rid ++ " returned " ++ res ++ " although " ++ mres)
-          else none
-      match viol with
+      match modelViolation l impl model cfg.bound with
       | some (k, why) => .bad k why
       | none =>
-        if ignoreWhen then
-          let strip := fun (rs : List (Nat × Option Nat × String)) => rs.map fun (rid, k, r) => (rid, k.map (fun _ => 0), r)
-          mirror (renderResults (strip model)) (renderResults (strip impl))
-        else mirror (renderResults model) (renderResults impl)
+        let strip := fun (rs : List (Nat × Option Nat × String)) =>
+          if ignoreWhen then rs.map fun (rid, k, r) => (rid, k.map (fun _ => 0), r) else rs
+        -- 3. the results, one by one
+        match mirror (renderResults (strip model)) (renderResults (strip impl)) with
+        | .ok =>
+          -- 4. observed accounting state (only present in serialised traces)
+          let obs := l.obs.reverse
+          match bobs, xobs with
+          | some b, some x =>
+            -- the documented bound refers to undelivered messages: `buffered = Σ |payloads|` is an
+            -- invariant of the proved model (`buffered_eq_sum`)
+            match spec "buffered-accounting" (renderNats (obs.map (·.1))) b with
+            | .ok => mirror ("mailboxes=" ++ renderNats (obs.map (·.2))) ("mailboxes=" ++ x)
+            | v => v
+          | _, _ => .ok
+        | v => v
+
+/-! ### long-lived routers ("life" lines) -/
+
+def hex2 (n : Nat) : String := String.ofList [hexDigit ((n / 16) % 16), hexDigit (n % 16)]
+
+def lifePayload (i s : Nat) : String := hex2 s ++ hex2 i ++ hex2 (i / 256)
+def lifeConflict (i s : Nat) : String := "ee" ++ hex2 s ++ hex2 i
+
+structure Macro where
+  count : Nat
+  start : Nat
+  tag : String
+  exp : List Nat
+  tpls : Array String
+
+def macroRidBase : Nat := 100000
+
+structure Expand where
+  evs : Array Ev := #[]
+  next : Nat := 0
+
+/-- one template letter of round `i` (see harness/c11_life.go) -/
+def expandLetter (m : Macro) (i : Nat) (cid : String) (st : Expand × Option Nat) (ch : Char) : Expand × Option Nat :=
+  let (e, last) := st
+  let push := fun (ev : Ev) => ({ e with evs := e.evs.push ev }, last)
+  match ch with
+  | '2' => push (.enqueue [.msg 2 cid (lifePayload i 2)])
+  | '3' => push (.enqueue [.msg 3 cid (lifePayload i 3)])
+  | '4' => push (.enqueue [.msg 4 cid (lifePayload i 4)])
+  | '9' => push (.enqueue [.msg 9 cid (lifePayload i 9)])
+  | 'a' => push (.enqueue [.msg 2 cid (lifeConflict i 2)])
+  | 'b' => push (.enqueue [.msg 3 cid (lifeConflict i 3)])
+  | 'c' => push (.enqueue [.msg 4 cid (lifeConflict i 4)])
+  | 'o' => push (.enqueue [.msg 2 ("zz/" ++ cid) (lifePayload i 2)])
+  | 'w' => push (.enqueue [.msg 3 (cid ++ "/") (lifePayload i 3)])
+  | 'r' => ({ evs := e.evs.push (.recv (macroRidBase + e.next) cid m.exp false), next := e.next + 1 }, some (macroRidBase + e.next))
+  | 'p' => ({ evs := e.evs.push (.recv (macroRidBase + e.next) cid m.exp true), next := e.next + 1 }, some (macroRidBase + e.next))
+  | 'g' => ({ evs := e.evs.push (.recvHeld (macroRidBase + e.next) cid m.exp), next := e.next + 1 }, some (macroRidBase + e.next))
+  | 'k' => match last with
+    | some rid => push (.cancel rid)
+    | none => st
+  | 'u' => match last with
+    | some rid => push (.release rid)
+    | none => st
+  | _ => st
+
+def expandMacro (m : Macro) (e : Expand) : Expand :=
+  if m.tpls.isEmpty then e else
+  (List.range m.count).foldl (fun e j =>
+    let i := m.start + j
+    let tpl := m.tpls[i % m.tpls.size]!
+    (tpl.toList.foldl (expandLetter m i (m.tag ++ toString i)) (e, none)).1) e
+
+def parseMacro? (tok : String) : Option Macro :=
+  match tok.splitOn ":" with
+  | ["M", count, start, tag, exp, tpls] => do
+    let count ← count.toNat?
+    let start ← start.toNat?
+    let exp ← parseIds? exp
+    pure { count, start, tag, exp, tpls := (splitComma tpls).toArray }
+  | _ => none
+
+def expandLife (toks : List String) : Option (List Ev) :=
+  (toks.foldl (fun (acc : Option Expand) tok => do
+    let e ← acc
+    match parseMacro? tok with
+    | some m => pure (expandMacro m e)
+    | none => do
+      let ev ← parseEvent? tok
+      pure { e with evs := e.evs.push ev }) (some {})).map (·.evs.toList)
+
+def fnv (h : UInt64) (s : String) : UInt64 :=
+  s.toUTF8.foldl (fun h b => (h ^^^ b.toUInt64) * 1099511628211) h
+
+def lifeStat (xs : List Nat) : String :=
+  match xs.getLast? with
+  | none => "na"
+  | some e => toString e ++ "/" ++ toString (xs.foldl max 0) ++ "/" ++ toString (xs.foldl (· + ·) 0)
+
+def lifeBadShown : Nat := 24
+
+def checkLife (cfg : Config) (toks : List String) (rhs : String) : Verdict :=
+  match expandLife toks with
+  | none => .unsupported "args"
+  | some evs =>
+    match modelRun cfg evs with
+    | none => .unsupported "sched-internal"
+    | some l =>
+      let model := ((resultsOf l).toArray.qsort (fun a b => a.1 < b.1)).toList
+      let field := fun (k : String) => (rhs.splitOn "|").findSome? fun f =>
+        if f.startsWith (k ++ "=") then some (f.drop (k.length + 1)).toString else none
+      match field "n", field "h", field "nbad", field "bad", field "b", field "x" with
+      | some n, some h, some nbad, some bad, some b, some x =>
+        match parseResults? bad with
+        | none => .unsupported "rhs"
+        | some implBad =>
+          let rendered := model.map fun (rid, k, r) =>
+            toString rid ++ "@" ++ (match k with | some k => toString k | none => "-") ++ "=" ++ r
+          let mh := natToHex (rendered.foldl (fun h r => fnv h (r ++ ";")) 14695981039346656037).toNat
+          let mbad := model.filter fun (_, _, r) => !r.startsWith "ok:"
+          -- the implementation's view: the (first `lifeBadShown`) failures; every receive before the
+          -- last listed one that is not listed completed
+          let viol := modelViolation l implBad (model.filter fun m => implBad.any (·.1 = m.1)) cfg.bound
+          match viol with
+          | some (k, why) => .bad k why
+          | none =>
+            let obs := l.obs.reverse
+            let summary := fun (b x : String) =>
+              "n=" ++ toString model.length ++ "|h=" ++ mh ++ "|nbad=" ++ toString mbad.length ++ "|bad=" ++
+                renderResults (mbad.take lifeBadShown) ++ "|b=" ++ b ++ "|x=" ++ x
+            let ms := summary b x
+            let is := "n=" ++ n ++ "|h=" ++ h ++ "|nbad=" ++ nbad ++ "|bad=" ++ bad ++ "|b=" ++ b ++ "|x=" ++ x
+            match mirror ms is with
+            | .ok =>
+              if b == "na" ∨ x == "na" then .ok else
+              match spec "buffered-accounting" (lifeStat (obs.map (·.1))) b with
+              | .ok => mirror ("mailboxes=" ++ lifeStat (obs.map (·.2))) ("mailboxes=" ++ x)
+              | v => v
+            | v => v
+      | _, _, _, _, _, _ => .unsupported "rhs"
 
 /-! ### echo -/
 
@@ -222,6 +401,16 @@ def handle (op : String) (args : List String) (rhs : String) : Verdict :=
     match parseIds? ms, bs.toNat?, evs.mapM parseEvent? with
     | some members, some bound, some evs => checkTrace { members, bound } evs rhs true
     | _, _, _ => .unsupported "args"
+  | "life", ms :: bs :: toks =>
+    match parseIds? ms, bs.toNat? with
+    | some members, some bound => checkLife { members, bound } toks rhs
+    | _, _ => .unsupported "args"
+  | "race", [_ms, _bs, rounds] =>
+    -- every round: both messages of an attached receive are deposited, nothing is poisoned, far
+    -- below the bound: the receive completes under every interleaving (`progress_complete`)
+    match rounds.toNat? with
+    | some n => spec "deadlock" ("ok=" ++ toString n ++ ";bad=-") rhs
+    | none => .unsupported "args"
   | "send", [path, cid, msgs] =>
     match parseMap? msgs with
     | none => .unsupported "args"
